@@ -1,0 +1,36 @@
+//go:build verif
+
+package gated
+
+import "time"
+
+// This file only exists in builds with the "verif" tag. It gives an external
+// verification harness a read-only view of what the Filter still withholds.
+
+// VerifGroup describes one group of gated events.
+type VerifGroup struct {
+	// ID is the Gateable ID of the group.
+	ID string
+	// Events is the number of events the group holds.
+	Events int
+	// Exp is the expiry instant fixed when the group was opened.
+	Exp time.Time
+	// Indexed reports whether the ID index (Filter.gated) maps ID to this
+	// very group.
+	Indexed bool
+}
+
+// VerifGated returns the gated groups in list (arrival) order, and the
+// number of entries of the ID index.
+func (w *Filter) VerifGated() ([]VerifGroup, int) {
+	w.l.RLock()
+	defer w.l.RUnlock()
+	var out []VerifGroup
+	if w.orderedGated != nil {
+		for e := w.orderedGated.Front(); e != nil; e = e.Next() {
+			ge := e.Value.(*gatedEvent)
+			out = append(out, VerifGroup{ID: ge.id, Events: len(ge.events), Exp: ge.exp, Indexed: w.gated[ge.id] == ge})
+		}
+	}
+	return out, len(w.gated)
+}
